@@ -120,9 +120,16 @@ def gen_case(rng, tier, exhaustive_small=None):
         "fault": None,
         # type of column x: Integer or a TypeDecorator with bind_expression/column_expression
         "xtype": rng.choice(["int", "int", "bindexpr", "colexpr", "both"]),
+        "chain": None,
         # DO UPDATE variants: how many parameter sets hit a pre-existing row (by tag)
         "conflicts": rng.choice([0, 1, 2, 3, 3]),
     }
+    if rng.random() < 0.3 and ret != "none":
+        # the sort flag given on the first / a middle / the last / several calls of a chain
+        k = rng.choice([2, 2, 3])
+        chain = [rng.random() < 0.4 for _ in range(k)]
+        case["chain"] = chain
+        case["sort"] = any(chain)
     if rng.random() < 0.15 and ret not in ("none", "defaults"):
         case["fault"] = [rng.choice(["dup", "drop", "alter"]), rng.randrange(4), rng.randrange(4), rng.randrange(4)]
     return case
@@ -274,7 +281,10 @@ def build(case):
     elif case["upsert"] == "update_bound":
         ins = ins.on_conflict_do_update(index_elements=[t.c.tag], set_={"x": bindparam("newx")})
     ret = case["ret"]
-    sort = case["sort"]
+    # chained generative calls: returning(.., sort_by_parameter_order=f0).returning(.., f1)...;
+    # the statement asks for ordered rows when ANY call of the chain said so
+    chain = case.get("chain") or [case["sort"]]
+    sort = chain[0]
     pkcols = [c_ for c_ in t.c if c_.primary_key]
     if ret == "tag":
         ins = ins.returning(t.c.tag, sort_by_parameter_order=sort)
@@ -290,6 +300,14 @@ def build(case):
         ins = ins.add_cte(cte2).returning(t.c.tag, select(cte2.c.q).scalar_subquery().label("qq"), sort_by_parameter_order=sort)
     elif ret == "defaults":
         ins = ins.return_defaults(sort_by_parameter_order=sort)
+    extra_cols = [t.c.y, t.c.z, t.c.x]
+    for i, flag in enumerate(chain[1:]):
+        col = extra_cols[i % 3]
+        kw2 = {"sort_by_parameter_order": True} if flag else ({} if i % 2 == 0 else {"sort_by_parameter_order": False})
+        if ret == "defaults":
+            ins = ins.return_defaults(col, **kw2)
+        elif ret != "none":
+            ins = ins.returning(col.label("extra%d" % i), **kw2)
     return eng, hub, t, ins, params, expected, gen_vals
 
 
@@ -343,6 +361,7 @@ def run_case(case):
     if case["page"] is not None and case["page_via"] == "option":
         opts["insertmanyvalues_page_size"] = case["page"]
     obs = {"case": case, "exc": None, "rows": None, "pk_rows": None, "keys": None}
+    obs["stmt_sort"] = bool(getattr(ins, "_sort_by_parameter_order", False))
     try:
         with eng.begin() as c:
             res = c.execute(ins, params, execution_options=opts)
@@ -450,6 +469,9 @@ def corr_lines(obs, enc):
     this case (empty when the statement did not go through insertmanyvalues)"""
     hub = obs["hub"]
     out = []
+    case_ = obs["case"]
+    if case_.get("chain") and case_["ret"] != "none":
+        out.append(("sort-flag", "ok %d" % obs["stmt_sort"], "imv sortflag %s" % "".join("1" if f else "0" for f in case_["chain"])))
     if len(hub.imv) != 1:
         return out
     rec = hub.imv[0]
@@ -782,6 +804,128 @@ def probe_sentinel_pk_omitted():
         eng.dispose()
 
 
+
+# ---------------------------------------------------------------------------- ORM flush under the shuffling cursor
+def gen_orm_case(rng):
+    return {
+        "orm": True,
+        "version": rng.choice(["none", "client", "client", "server"]),
+        "eager_defaults": rng.choice([True, False, "auto"]),
+        "server_default": rng.random() < 0.6,
+        "flag": rng.choice(["sqlite", "implicit"]),
+        "n": rng.choice([2, 3, 5, 8]),
+        "page": rng.choice([None, 1, 2, 3]),
+        "pk": rng.choice(["autoinc", "autoinc", "client"]),
+        "seed": rng.randrange(1 << 30),
+    }
+
+
+def run_orm_case(case):
+    """flush several pending objects at once; afterwards every object must carry the primary
+    key, version and server defaults of the row that holds ITS data"""
+    import sqlalchemy as sa
+    from sqlalchemy import Column, Integer, MetaData, Table, text
+    from sqlalchemy.orm import Session, registry
+    from sqlalchemy.sql.compiler import InsertmanyvaluesSentinelOpts
+
+    from harness.lib_dml import make_engine
+
+    rng = random.Random(case["seed"])
+    kw = {}
+    if case["page"]:
+        kw["insertmanyvalues_page_size"] = case["page"]
+    eng, hub = make_engine("qmark", **kw)
+    if case["flag"] == "implicit":
+        eng.dialect.insertmanyvalues_implicit_sentinel = InsertmanyvaluesSentinelOpts.AUTOINCREMENT
+    m = MetaData()
+    counter = [0]
+
+    def pkgen():
+        counter[0] += 1
+        return 1000 - 13 * counter[0]  # decreasing: not the insertion order
+
+    cols = [
+        Column("id", Integer, primary_key=True, **({"default": pkgen} if case["pk"] == "client" else {})),
+        Column("tag", Integer, nullable=False, unique=True),
+        Column("x", Integer),
+        Column("ver", Integer, nullable=False, **({"server_default": text("1")} if case["version"] == "server" else ({} if case["version"] == "client" else {"server_default": text("0")}))),
+    ]
+    if case["server_default"]:
+        cols.append(Column("sd", Integer, server_default=text("11")))
+    t = Table("t", m, *cols)
+    m.create_all(eng)
+    reg = registry()
+
+    class Obj:
+        pass
+
+    margs = {"eager_defaults": case["eager_defaults"]}
+    if case["version"] == "client":
+        margs["version_id_col"] = t.c.ver
+    elif case["version"] == "server":
+        margs["version_id_col"] = t.c.ver
+        margs["version_id_generator"] = False
+    reg.map_imperatively(Obj, t, **margs)
+    state = {"fetches": 0}
+    shuf = random.Random(case["seed"] ^ 0x77)
+
+    def adversary(stmt, rows):
+        rows = list(rows)
+        shuf.shuffle(rows)
+        return rows
+
+    hub.adversary = adversary
+    tags = rng.sample(range(100, 100 + 5 * case["n"]), case["n"])
+    bad = None
+    try:
+        with Session(eng) as s:
+            objs = []
+            for i, tg in enumerate(tags):
+                o = Obj()
+                o.tag = tg
+                o.x = 10 * i
+                objs.append(o)
+            s.add_all(objs)
+            s.flush()
+            seen = [(o.tag, o.id, o.ver, (o.sd if case["server_default"] else None)) for o in objs]
+            s.commit()
+        hub.adversary = None
+        with eng.connect() as c:
+            rows = {r.tag: r for r in c.execute(sa.select(t))}
+        if sorted(rows) != sorted(tags):
+            bad = ("c12-orm-rowset", "tags stored %s, objects %s" % (sorted(rows), sorted(tags)))
+        else:
+            for tg, oid, over, osd in seen:
+                r = rows[tg]
+                if r.id != oid:
+                    bad = ("c12-orm-object-has-other-rows-primary-key", "object tag=%s got id %s, its row has id %s (all: %s)" % (tg, oid, r.id, seen))
+                    break
+                if over != r.ver:
+                    bad = ("c12-orm-object-version-mismatch", "object tag=%s version %s, row version %s" % (tg, over, r.ver))
+                    break
+                if case["server_default"] and osd != r.sd:
+                    bad = ("c12-orm-object-server-default-mismatch", "object tag=%s sd %s, row sd %s" % (tg, osd, r.sd))
+                    break
+    except Exception as e:  # noqa: BLE001
+        bad = ("c12-orm-exception:" + type(e).__name__, str(e)[:300])
+    finally:
+        reg.dispose()
+        eng.dispose()
+    return bad, [len(b.batch) for rec in hub.imv for b in rec["batches"]]
+
+
+def orm_flush_cases(ctx, n):
+    for _ in range(n):
+        case = gen_orm_case(ctx.rng)
+        bad, sizes = run_orm_case(case)
+        ctx.case(("orm", tuple(sorted((k, str(v)) for k, v in case.items()))), nontrivial=True)
+        ctx.count("orm:version=%s" % case["version"])
+        ctx.count("orm:eager_defaults=%s" % case["eager_defaults"])
+        ctx.count("orm:batched=%s" % (any(x > 1 for x in sizes)))
+        if bad:
+            ctx.violation(bad[0], case, bad[1])
+
+
 def run(ctx):
     ctx.rule = (
         "random cases over sentinel configuration (8 table shapes) x dialect sentinel flag (SQLite's, MariaDB's) x paramstyle "
@@ -797,6 +941,7 @@ def run(ctx):
     names, cases, impl_out, reqs = explore(ctx, ncases, ctx.tier)
     nonsqlite_plans(ctx, names, cases, impl_out, reqs)
     probe_known(ctx)
+    orm_flush_cases(ctx, 150 if ctx.tier == "quick" else 2000)
     if ctx.driver_ok():
         model = ctx.driver(reqs)
         for nm in sorted(set(names)):
@@ -984,6 +1129,10 @@ def search(ctx, broken):
 
 def replay(ctx, obj):
     case = obj["case"]
+    if isinstance(case, dict) and case.get("orm"):
+        bad, _ = run_orm_case(case)
+        print("replay C12 ORM flush %s -> %s" % (case, bad))
+        return bool(bad)
     if obj.get("key", "").startswith("c12-crash"):
         try:
             observe(case)
